@@ -267,6 +267,18 @@ def real_job(job):
         from lian.config import config
         for k, v in TIGHT_REAL.items():
             setattr(config, k, v)
+        if job.get("compensate_sfg", True):
+            # known finding StateFlowGraphLoader:...:feather-write-failed: the SFG bundles exist only in the bundle cache.
+            # Keep them there, so that the tight run reaches its end and everything else can be judged; the finding itself is
+            # still reported from the files, and one run per tier stays uncompensated to document the crash.
+            import lian.util.loader as lmod
+            o_init = lmod.Loader.__init__
+
+            def init(self, options, *a, **k):
+                o_init(self, options, *a, **k)
+                for attr in ("_state_flow_graph_p2_loader", "_state_flow_graph_p3_loader"):
+                    getattr(self, attr).bundle_cache.capacity = 10 ** 6
+            lmod.Loader.__init__ = init
     sc = _root()
     src = os.path.join(sc, "src")
     os.makedirs(src, exist_ok=True)
@@ -290,6 +302,7 @@ def real_job(job):
            "contract_failures": cs.failures[:10], "writes": wm.calls,
            "swallowed": [{"file": os.path.basename(f["path"]), "type": f["type"], "message": f["message"][:160], "reported": f["reported"]} for f in wm.swallowed],
            "cmp": None}
+    res["saved_digest"] = lmon.saved_digest(app.loader, rec) if app.loader is not None else {}
     if err is None and app.loader is not None:
         res["cmp"] = lmon.compare_live_and_restored(app, rec, wm)
     elif err is not None and wm.failed and err["where"].startswith("data_model.py:load"):
@@ -365,7 +378,10 @@ def absorb_fault(chk, r):
 def absorb_real(chk, r):
     job = r.item
     label = "%s %s%s%s" % (job["lang"], job["sub"], " --enable-p2" if job["p2"] else "", " tight" if job["tight"] else "")
-    case = {"kind": "real", "lang": job["lang"], "sub": job["sub"], "p2": job["p2"], "tight": job["tight"], "programs": job["programs"]}
+    if job["tight"] and not job.get("compensate_sfg", True):
+        label += " (SFG bundles not kept in memory)"
+    case = {"kind": "real", "lang": job["lang"], "sub": job["sub"], "p2": job["p2"], "tight": job["tight"], "programs": job["programs"],
+            "compensate_sfg": job.get("compensate_sfg", True)}
     if r.status != "ok":
         chk.note_inconclusive(f"real run {label}: {r.status} {r.value if r.status != 'timeout' else ''} {r.log_text(600)}")
         return
@@ -413,6 +429,48 @@ def absorb_real(chk, r):
         note_sigs(chk, by)
         chk.nontrivial_case(("real", label))
     runs.append(entry)
+    if job["tight"] and not job.get("compensate_sfg", True):
+        return
+    pairs = chk.extra.setdefault("_pairs", {})
+    pk = json.dumps([job["lang"], job["sub"], job["p2"], sorted(job["programs"])])
+    pairs.setdefault(pk, {})["tight" if job["tight"] else "default"] = {
+        "err": v["err"], "digest": v.get("saved_digest", {}), "write_failure_crash": v.get("write_failure_crash"), "case": case, "label": label}
+
+
+def judge_pairs(chk):
+    """The same analysis under the default and under the tight loader configuration: cache sizes and bundle limits must be
+    invisible, so the tight run completes if the default one does and every loader was given the same final content."""
+    pairs = chk.extra.pop("_pairs", {})
+    for pk, d in sorted(pairs.items()):
+        if "default" not in d or "tight" not in d:
+            continue
+        a, b = d["default"], d["tight"]
+        if a["err"] is not None:
+            continue
+        chk.count("real runs: default/tight pairs judged", 1)
+        case = dict(b["case"])
+        case["kind"] = "real-pair"
+        if b["err"] is not None:
+            if b["write_failure_crash"]:
+                continue            # already reported under the write-failure signature
+            chk.fail("*:real-run:analysis-dies-under-tight-loader-config[%s@%s]" % (b["err"]["type"], b["err"]["where"]),
+                     f"{a['label']} completes; the same analysis with {TIGHT_REAL} dies with {b['err']['type']}: {b['err']['msg']}", case)
+            continue
+        n = 0
+        by = {}
+        for attr in sorted(set(a["digest"]) | set(b["digest"])):
+            x, y = a["digest"].get(attr, {"items": {}}), b["digest"].get(attr, {"items": {}})
+            cname = x.get("class") or y.get("class")
+            for k in sorted(set(x["items"]) | set(y["items"])):
+                n += 1
+                leaves = lmon.digest_difference(x["items"].get(k), y["items"].get(k))
+                if leaves:
+                    by.setdefault((cname, ",".join(leaves)), []).append((attr, k))
+        chk.count("real runs: last-saved items compared between default and tight configuration", n)
+        for (cname, leaves), where in sorted(by.items()):
+            chk.fail("%s:real-run:results-depend-on-loader-config[%s]" % (cname, leaves),
+                     f"{a['label']}: {len(where)} item(s) were last saved with different content when the same analysis ran under the "
+                     f"tight loader configuration (fields {leaves}), e.g. {where[:3]}", case)
 
 
 def replay(chk, path):
@@ -429,11 +487,14 @@ def replay(chk, path):
         r = forkpool.run_one(fault_job, {"family": case["family"], "cfg": case["cfg"], "history": case["history"],
                                          "only": [case["mode"], case["n"]]}, timeout=300)
         absorb_fault(chk, r)
-    elif kind == "real":
-        r = forkpool.run_one(real_job, {"lang": case["lang"], "sub": case["sub"], "p2": case["p2"], "tight": case["tight"],
-                                        "programs": case["programs"]}, timeout=600)
-        r.item = {"lang": case["lang"], "sub": case["sub"], "p2": case["p2"], "tight": case["tight"], "programs": case["programs"]}
-        absorb_real(chk, r)
+    elif kind in ("real", "real-pair"):
+        for tight in ([case["tight"]] if kind == "real" else [False, True]):
+            item = {"kind": "real", "lang": case["lang"], "sub": case["sub"], "p2": case["p2"], "tight": tight, "programs": case["programs"],
+                    "compensate_sfg": case.get("compensate_sfg", True)}
+            r = forkpool.run_one(real_job, item, timeout=600)
+            r.item = item
+            absorb_real(chk, r)
+        judge_pairs(chk)
     else:
         chk.note_inconclusive(f"unknown case kind {kind}")
     chk.nontrivial_case("replay-a")
@@ -449,7 +510,7 @@ def main():
     if replaying:
         try:
             with open(replaying) as f:
-                is_real_replay = json.load(f)["case"].get("kind") == "real"
+                is_real_replay = json.load(f)["case"].get("kind") in ("real", "real-pair")
         except Exception:
             pass
     lianrun.prepare_zygote(warm=(not replaying) or is_real_replay)
@@ -468,14 +529,17 @@ def main():
     reps, rest = representatives()
     jobs = []
     # ---- (e) real analyses (they take longest per job, so they are queued first) ----
-    combos = [("python", "run", False, False, 1), ("python", "run", True, False, 1), ("python", "semantic", False, True, 1),
-              ("javascript", "run", False, True, 1), ("java", "run", True, False, 1), ("python", "semantic", True, True, 2)]
+    combos = [("python", "run", False, False, 1), ("python", "run", False, True, 1), ("python", "semantic", True, False, 2),
+              ("python", "semantic", True, True, 2), ("javascript", "run", False, False, 1), ("javascript", "run", False, True, 1),
+              ("java", "run", True, False, 1), ("python", "run", True, False, 1)]
     if thorough:
         combos = [(lang, sub, p2, tight, k) for lang in ("python", "javascript", "java") for sub in ("run", "semantic")
                   for p2 in (False, True) for tight in (False, True) for k in (1, 2)]
     for lang, sub, p2, tight, k in combos:
         jobs.append({"kind": "real", "lang": lang, "sub": sub, "p2": p2, "tight": tight,
                      "programs": (REAL_PROGRAMS if k == 1 else REAL_PROGRAMS_2)[lang]})
+    jobs.append({"kind": "real", "lang": "javascript", "sub": "run", "p2": False, "tight": True, "compensate_sfg": False,
+                 "programs": REAL_PROGRAMS["javascript"]})
     # ---- (a) bounded exhaustive ----
     d_all, d_deep = (3, 4) if not thorough else (4, 5)
     h_all = enum_histories(d_all)
@@ -556,6 +620,7 @@ def main():
             absorb_fault(chk, r)
         else:
             absorb_real(chk, r)
+    judge_pairs(chk)
     chk.exhaustive = True
     chk.extra["families"] = {"bundle loaders": list(lmon.families()), "map loaders": list(lmon.map_families())}
     chk.sample({"kind": "history", "family": "CFGLoader", "cfg": list(CFG_TIGHT),
@@ -573,6 +638,7 @@ def main():
     chk.require("map loaders: reads compared with the model", floor(2000, 20000))
     chk.require("fault injection: write failures that happened", floor(100, 300))
     chk.require("real runs compared", floor(3, 20))
+    chk.require("real runs: default/tight pairs judged", floor(2, 12))
     chk.require("real runs: items compared (saved vs fresh restored loader)", floor(200, 2000))
     chk.require("post-condition evaluated: LRUCache: linked list == dict", floor(50000, 1000000))
     chk.require("post-condition evaluated: LRUCache.get: a hit returns the last put, a miss None", floor(10000, 200000))
